@@ -146,15 +146,17 @@ func (index *metricIndexDatabase) GenSeriesID(metricID metric.ID, row *metric.St
 	tagsHash := row.TagsHash()
 	binary.LittleEndian.PutUint64(scratch[:], tagsHash)
 
+	limits := models.GetDatabaseLimits(index.metaDB.Name())
+	seriesLimit := limits.GetSeriesLimit(strutil.ByteSlice2String(row.NameSpace()), strutil.ByteSlice2String(row.Name()))
 	seriesID, isNewSeries, err = index.series.GetOrCreateValue(uint32(metricID), scratch[:], func() (uint32, error) {
-		return index.createSeriesID(metricID), nil
-	})
-	if err == nil && isNewSeries {
-		limits := models.GetDatabaseLimits(index.metaDB.Name())
-		seriesLimit := limits.GetSeriesLimit(strutil.ByteSlice2String(row.NameSpace()), strutil.ByteSlice2String(row.Name()))
-		if seriesLimit > 0 && seriesLimit < seriesID {
+		newSeriesID := index.createSeriesID(metricID)
+		// check the limit before the (tags hash => series id) entry is stored
+		if seriesLimit > 0 && seriesLimit < newSeriesID {
 			return 0, constants.ErrTooManySeries
 		}
+		return newSeriesID, nil
+	})
+	if err == nil && isNewSeries {
 		// if new series do inverted index build
 		index.sequenceCache.Add(metricID, seriesID)
 
